@@ -36,6 +36,11 @@ pub enum Site {
     Drop,
     /// Arc::strong_count in teardown
     StrongCount,
+    /// Right after an atomic operation completed (lets a race between an instrumented operation
+    /// and a following uninstrumented one be scheduled)
+    AfterAtomic,
+    /// Right after a lock was released
+    AfterLock,
     /// Entering a region in which the thread must not be descheduled
     EnterCritical,
     /// Leaving such a region
@@ -72,6 +77,7 @@ impl CriticalGuard {
 impl Drop for CriticalGuard {
     fn drop(&mut self) {
         yield_point(Site::ExitCritical);
+        yield_point(Site::AfterLock);
     }
 }
 
@@ -86,32 +92,43 @@ impl AtomicUsize {
 
     pub fn load(&self, order: Ordering) -> usize {
         yield_point(Site::AtomicLoad);
-        self.0.load(order)
+        let value = self.0.load(order);
+        yield_point(Site::AfterAtomic);
+        value
     }
 
     pub fn store(&self, value: usize, order: Ordering) {
         yield_point(Site::AtomicStore);
-        self.0.store(value, order)
+        self.0.store(value, order);
+        yield_point(Site::AfterAtomic);
     }
 
     pub fn swap(&self, value: usize, order: Ordering) -> usize {
         yield_point(Site::AtomicRmw);
-        self.0.swap(value, order)
+        let previous = self.0.swap(value, order);
+        yield_point(Site::AfterAtomic);
+        previous
     }
 
     pub fn fetch_add(&self, value: usize, order: Ordering) -> usize {
         yield_point(Site::AtomicRmw);
-        self.0.fetch_add(value, order)
+        let previous = self.0.fetch_add(value, order);
+        yield_point(Site::AfterAtomic);
+        previous
     }
 
     pub fn fetch_sub(&self, value: usize, order: Ordering) -> usize {
         yield_point(Site::AtomicRmw);
-        self.0.fetch_sub(value, order)
+        let previous = self.0.fetch_sub(value, order);
+        yield_point(Site::AfterAtomic);
+        previous
     }
 
     pub fn fetch_max(&self, value: usize, order: Ordering) -> usize {
         yield_point(Site::AtomicRmw);
-        self.0.fetch_max(value, order)
+        let previous = self.0.fetch_max(value, order);
+        yield_point(Site::AfterAtomic);
+        previous
     }
 
     pub fn compare_exchange(
@@ -122,7 +139,9 @@ impl AtomicUsize {
         failure: Ordering,
     ) -> Result<usize, usize> {
         yield_point(Site::AtomicRmw);
-        self.0.compare_exchange(current, new, success, failure)
+        let result = self.0.compare_exchange(current, new, success, failure);
+        yield_point(Site::AfterAtomic);
+        result
     }
 
     pub fn compare_exchange_weak(
@@ -134,7 +153,9 @@ impl AtomicUsize {
     ) -> Result<usize, usize> {
         yield_point(Site::AtomicRmw);
         // never fails spuriously: the simulation must stay deterministic
-        self.0.compare_exchange(current, new, success, failure)
+        let result = self.0.compare_exchange(current, new, success, failure);
+        yield_point(Site::AfterAtomic);
+        result
     }
 
     pub fn fetch_update<F>(
